@@ -177,8 +177,20 @@ STATS = [
 
 def run(ctx: Ctx):
   st = {}
-  for r in (r1, r2, r3, r4, r5, r6):
+  for r in (r1, r2, r3, r4, r5, r6, r7):
     ctx.guard(r, st)
+  from mlmverif.props import c11
+  from mlmverif.props._agg import model as aggmodel
+  ctx.include('R-C07-8', '"the accumulator API returns the same value as the'
+              ' one-shot API": an accumulator never shares mutable state with'
+              ' a state merged into it, so later updates cannot corrupt either'
+              ' value (R-C11-1, R-C11-2)', _c11_shared, aggmodel(ctx), min_instances=20)
+
+
+def _c11_shared(sub, m):
+  from mlmverif.props import c11
+  sub.guard(c11.r1, m)
+  sub.guard(c11.r2, m)
 
 
 def _ref_alias_module(repo):
@@ -775,12 +787,72 @@ def r6(ctx: Ctx, st):
   ctx.floor(rule, 6)
 
 
+ORDERED_ARG = {  # callee -> (position, keyword) of the argument that must be ascending
+    'np.interp': (1, 'xp'), 'numpy.interp': (1, 'xp'),
+    'np.searchsorted': (0, 'a'), 'numpy.searchsorted': (0, 'a'),
+    'np.digitize': (1, 'bins'), 'numpy.digitize': (1, 'bins'),
+    'bisect.bisect': (0, 'a'), 'bisect.bisect_left': (0, 'a'), 'bisect.bisect_right': (0, 'a'),
+}
+
+
+def r7(ctx: Ctx, st):
+  rule = 'R-C07-7'
+  ctx.rule(rule, 'ordered-grid precondition: the argument that np.interp /'
+           ' searchsorted / digitize / bisect require to be ascending is'
+           ' provably ordered: every value that can reach it comes from'
+           ' sorted()/np.sort/arange/linspace through order-preserving'
+           ' conversions, locals, instance fields (constructor normalisation,'
+           ' every store and every construction site) — otherwise the'
+           ' interpolated metric@threshold is silently wrong')
+  from mlmverif.sortedness import Sortedness
+  so = Sortedness(ctx.repo)
+  n = 0
+  mods = [m for name, m in sorted(ctx.repo.modules.items())
+          if '._src.aggregates.' in name or '._src.metrics.' in name or name.endswith('.math_utils')]
+  if len(mods) < 8:
+    raise AnalysisError(f'{rule}: only {len(mods)} metric modules found')
+  for mi in mods:
+    fns = list(mi.functions.values()) + [m for c in mi.classes.values() for m in c.methods.values()]
+    for fi in fns:
+      for c in ast.walk(fi.node):
+        if not isinstance(c, ast.Call) or unparse(c.func) not in ORDERED_ARG:
+          continue
+        pos, kw = ORDERED_ARG[unparse(c.func)]
+        arg = c.args[pos] if len(c.args) > pos else next(
+            (k.value for k in c.keywords if k.arg == kw), None)
+        if arg is None:
+          raise AnalysisError(f'{rule}: cannot find the ordered argument of {unparse(c)[:60]}')
+        n += 1
+        ok, why = so.expr(arg, fi)
+        if ok:
+          ctx.ok(rule, fi, f'{unparse(c.func)}: `{unparse(arg)}` is ordered: {why}', c)
+        else:
+          ctx.fail(rule, fi, f'{fi.qualname}: {unparse(c.func)}(.., {kw}=<ordered>)',
+                   f'`{unparse(arg)}` reaches {unparse(c.func)} without being'
+                   f' provably ascending ({why}): the function silently returns'
+                   ' a wrong value for an unordered grid', node=c)
+  ctx.floor(rule, 1, n)
+
+
 from mlmverif.selfcheck import B, OK  # noqa: E402
 
 _C = 'aggregates/classification.py'
 _T = 'aggregates/retrieval.py'
 _MC = 'metrics/classification.py'
 VARIANTS = [
+    B('thresholds-not-sorted', 'aggregates/retrieval.py',
+      '    thresholds = np.asarray(sorted(self.thresholds), dtype=np.float32)',
+      '    thresholds = np.asarray(self.thresholds, dtype=np.float32).reshape(-1)', 'R-C07-7'),
+    B('thresholds-sorted-descending', 'aggregates/retrieval.py',
+      '    thresholds = np.asarray(sorted(self.thresholds), dtype=np.float32)',
+      '    thresholds = np.asarray(sorted(self.thresholds, reverse=True), dtype=np.float32)', 'R-C07-7'),
+    OK('thresholds-np-sort', 'aggregates/retrieval.py',
+       '    thresholds = np.asarray(sorted(self.thresholds), dtype=np.float32)',
+       '    thresholds = np.sort(np.asarray(self.thresholds, dtype=np.float32))'),
+    B('meanstate-merge-adopts-operand-arrays', 'aggregates/utils.py',
+      '  def merge(self, other: MeanState):\n    self.total += other.total',
+      '  def merge(self, other: MeanState):\n    if not self.count:\n      self.total, self.count = other.total, other.count\n      return\n    self.total += other.total',
+      'R-C07-8'),
     B('for-swaps-fp-fn', _C,
       '  return math_utils.safe_divide(cm.fn, (cm.fn + cm.tn))',
       '  return math_utils.safe_divide(cm.fp, (cm.fp + cm.tn))', 'R-C07-1'),
